@@ -208,6 +208,72 @@ def dimer_checks(part, seed):
                 part.count("dimer_convention_%s" % ("R.T" if m1 <= m2 else "R"))
 
 
+def molecule_history_checks(part, seed):
+    """
+    the two molecules of a pair have a LIFE before the pair is formed: their centroid / centre of mass is read, they are rotated about the
+    origin or about a point, translated, transformed - in place, through the Molecule methods.  All histories of length <= 2 over that
+    alphabet, applied to both molecules; then the pair's transform relates the molecules as they ARE (positions tracked independently)
+    """
+    from chmpy.core.molecule import Molecule
+    from chmpy.core.dimer import Dimer
+    from chmpy.core.element import Element
+
+    syms = ["C", "H", "F", "Cl", "Br"]
+    pos = np.array([[0.0, 0.0, 0.0], [0.63, 0.63, 0.63], [-0.8, -0.8, 0.8], [-1.0, 1.0, -1.0], [1.1, -1.1, -1.1]]) + np.array([1.5, -0.5, 2.0])
+    Q1, Q2 = rot((1, 2, 3), 0.9), rot((0, 1, 0), np.pi / 2)
+    pt = np.array([0.5, -1.0, 2.0])
+    tvec = np.array([-2.0, 3.5, 0.25])
+    # letter -> (what is done to the Molecule, what that means for an (n,3) coordinate array)
+    alphabet = {
+        "centroid": (lambda m: m.centroid, lambda x: x),
+        "center_of_mass": (lambda m: m.center_of_mass, lambda x: x),
+        "rotate-origin": (lambda m: m.rotate(Q1), lambda x: x @ Q1),
+        "rotate-about-point": (lambda m: m.rotate(Q2, origin=pt), lambda x: (x - pt) @ Q2 + pt),
+        "translate": (lambda m: m.translate(tvec), lambda x: x + tvec),
+        "transform": (lambda m: m.transform(rotation=Q2, translation=tvec), lambda x: x @ Q2 + tvec),
+    }
+    hists = [()] + [(a,) for a in alphabet] + [(a, b) for a in alphabet for b in alphabet]
+    for tname, T in transforms(seed)[:3]:
+        c = pos.mean(axis=0)
+        posb0 = (pos - c) @ T.T + c + np.array([3.0, -4.0, 5.5])
+        for ha in hists:
+            for hb in (ha, ha[::-1], ("centroid",) + ha[:1]):
+                part.ev()
+                part.tr()
+                case = {"kind": "molhist", "seed": seed}
+                a = Molecule([Element[s_] for s_ in syms], pos.copy())
+                b = Molecule([Element[s_] for s_ in syms], posb0.copy())
+                xa, xb = pos.copy(), posb0.copy()
+                try:
+                    for letter in ha:
+                        alphabet[letter][0](a)
+                        xa = alphabet[letter][1](xa)
+                    for letter in hb:
+                        alphabet[letter][0](b)
+                        xb = alphabet[letter][1](xb)
+                    if not (np.abs(np.asarray(a.positions) - xa).max() <= 1e-12) or not (np.abs(np.asarray(b.positions) - xb).max() <= 1e-12):
+                        part.fail("molecule-motion", "after %s the molecule's coordinates are not the moved coordinates (dev %.3g)"
+                                  % (list(ha), float(np.abs(np.asarray(a.positions) - xa).max())), case)
+                        continue
+                    if not (np.abs(np.asarray(a.centroid) - xa.mean(axis=0)).max() <= 1e-12) or not (np.abs(np.asarray(b.centroid) - xb.mean(axis=0)).max() <= 1e-12):
+                        part.fail("molecule-centroid-stale", "after %s / %s a molecule's centroid is not the mean of its coordinates" % (list(ha), list(hb)), case)
+                        continue
+                    d = Dimer(a, b, transform_ab="calculate")
+                    R, v = d.transform_ab
+                except Exception as e:
+                    part.fail("molhist-raise", "pair formed after the histories %s / %s raised %r" % (list(ha), list(hb), e), case)
+                    continue
+                ca = xa.mean(axis=0)
+                m1 = np.abs((xa - ca) @ np.asarray(R).T + ca + v - xb).max()
+                m2 = np.abs((xa - ca) @ np.asarray(R) + ca + v - xb).max()
+                part.dev("dimer_after_history", min(m1, m2))
+                if not (min(m1, m2) <= 1e-8) or not (abs(np.linalg.det(R) - 1) <= 1e-9):
+                    part.fail("dimer-after-history", "Dimer.transform_ab of two congruent molecules (relation %s) whose lives before were %s and %s does not map one onto the other (dev %.3g)"
+                              % (tname, list(ha), list(hb), min(m1, m2)), case)
+                part.outcome(("molhist", len(ha), len(hb)))
+    part.nstates(len(hists))
+
+
 def crystal_dimer_checks(part, seed):
     """
     Dimer.transform_ab as produced by Crystal.symmetry_unique_dimers, for several crystals analysed one after the other in one
@@ -308,6 +374,8 @@ def run(ctx):
     ctx.pmap(worker, chunked(sets, max(1, len(sets) // 128)), seed=ctx.seed)
     dimer_checks(ctx, ctx.seed)
     crystal_dimer_checks(ctx, ctx.seed)
+    molecule_history_checks(ctx, ctx.seed)
+    ctx.bounds["molecule_histories"] = "all histories of length <= 2 over {centroid, center_of_mass, rotate about the origin, rotate about a point, translate, transform} on both molecules x 3 pairings x 3 relations before the pair is formed"
     if ctx.counters.get("dimer_convention_R.T") and ctx.counters.get("dimer_convention_R"):
         pass
     ctx.sample({"a_triple": list(sets[0][1]), "a_collinear_triple": [(-1, -1, -1), (0, 0, 0), (1, 1, 1)]})
@@ -319,6 +387,9 @@ def replay(ctx, case):
         return
     if case.get("kind") == "dimer":
         dimer_checks(ctx, case["seed"])
+        return
+    if case.get("kind") == "molhist":
+        molecule_history_checks(ctx, case["seed"])
         return
     tr = transforms(case["seed"])
     t = case["transform"]
